@@ -11,6 +11,7 @@ From Coq Require Import Reals QArith ZArith List Arith Permutation.
 From Coquelicot Require Import Coquelicot.
 From BQ Require Import lib.Expr lib.ExprThm gate.Matrix gate.MatrixThm gate.Composed gate.GateLib gate.GateThm gate.ComposedThm.
 From BQ Require Import gate.EqHash gate.EqHashThm gate.FrozenThm.
+From BQ Require Import gate.PermDiag gate.PermDiagThm.
 Import ListNotations.
 Local Open Scope nat_scope.
 
@@ -313,6 +314,51 @@ Theorem C18_model_embedded : forall rho gate_rx big_rx maps U,
   meval rho (embedded c0 c1 gate_rx big_rx maps U) = embedded C0 C1 gate_rx big_rx maps (meval rho U).
 Proof. exact meval_embedded. Qed.
 
+(* ===== permutation and diagonal gates, every dimension ============================= *)
+(* The permutation matrix of a bijection of {0..n-1} (column j has its 1 in row f j) is
+   unitary and its dagger is the permutation matrix of the inverse bijection: the algebraic
+   content of PermutationMatrix / PermutationGate / ShiftGate / SwapGate / CSUMGate. *)
+Theorem C18_permutation_unitary : forall n f g,
+  (forall j, j < n -> f j < n) -> (forall i, i < n -> g i < n) ->
+  (forall j, j < n -> g (f j) = j) -> (forall i, i < n -> f (g i) = i) ->
+  Cunitary n (pmat C0 C1 f).
+Proof. exact Cpmat_unitary. Qed.
+Theorem C18_permutation_inverse : forall n f g,
+  (forall j, j < n -> g (f j) = j) -> (forall i, i < n -> f (g i) = i) ->
+  meq n (dagger Cconj (pmat C0 C1 f)) (pmat C0 C1 g).
+Proof. exact Cpmat_inverse. Qed.
+(* a diagonal matrix of unit-modulus entries is unitary *)
+Theorem C18_diagonal_unitary : forall n d,
+  (forall i, i < n -> Cmult (d i) (Cconj (d i)) = C1) -> Cunitary n (dmat C0 d).
+Proof. exact Cdmat_unitary. Qed.
+(* a class with the default (expression) gradient and no get_inverse_params override
+   satisfies the whole contract as soon as it is unitary for all parameters *)
+Theorem C18_contract_of_unitary : forall g,
+  g_grad g = None -> g_inv g = None -> (g_expr g = None \/ g_expr g = Some (g_mat g)) ->
+  (forall rho, Cunitary (g_dim g) (meval rho (g_mat g))) -> gate_contract g.
+Proof. exact contract_of_unitary. Qed.
+(* The radix / size parameterised families, for EVERY constructor argument (C18_library_contract
+   has them at the grid points only) and all real parameters: unitary, gradient = derivative,
+   expression backend = numpy override.  The transcriptions G_xxx are the ones the extracted
+   model prints and the harness compares with the classes at radix 2-5 / sizes 1-3. *)
+Theorem C18_contract_Shift_all : forall r, 0 < r -> gate_contract (G_Shift r).
+Proof. exact Shift_contract_all. Qed.
+Theorem C18_inverse_Shift_all : forall r, 0 < r ->
+  meq r (dagger Cconj (pmat C0 C1 (fun j => (j + 1) mod r))) (pmat C0 C1 (fun i => (i + (r - 1)) mod r)).
+Proof. exact Shift_inverse_all. Qed.
+Theorem C18_contract_Clock_all : forall r, gate_contract (G_Clock r).
+Proof. exact Clock_contract_all. Qed.
+Theorem C18_contract_PD_all : forall idx r, gate_contract (G_PD idx r).
+Proof. exact PD_contract_all. Qed.
+Theorem C18_contract_ArbitraryCPhase_all : forall rx, gate_contract (G_ACP rx).
+Proof. exact ACP_contract_all. Qed.
+Theorem C18_contract_Diagonal_all : forall n, gate_contract (G_Diag n).
+Proof. exact Diag_contract_all. Qed.
+Theorem C18_contract_MPRZ_all : forall n t, gate_contract (G_MPRZ n t).
+Proof. exact MPRZ_contract_all. Qed.
+Theorem C18_contract_PauliZ_all : forall n, gate_contract (G_PauliZ n).
+Proof. exact PauliZ_contract_all. Qed.
+
 (* The part of the property with no theorem (kept visible as a proposition): calc_params of a
    GeneralGate reproduces its argument up to global phase - here for U3Gate, where the code's
    formula (det, angle, arctan2) would be the witness.  Checked by the oracle only. *)
@@ -353,3 +399,11 @@ Proof. split; [apply inv_init|]. split; [reflexivity | discriminate]. Qed.
 Example C18_nonvacuous_library :
   length (fixed_gates ++ grid_gates) = 115 /\ In (G_H 3) (fixed_gates ++ grid_gates).
 Proof. split; [reflexivity | simpl; tauto]. Qed.
+(* the 7-level shift is a 7-cycle: hypotheses of C18_permutation_unitary hold and the matrix is
+   not the identity; the qudit clock entry at level 1 of radix 7 is a genuine phase *)
+Example C18_nonvacuous_permdiag :
+  map (fun j => (j + 1) mod 7) (seq 0 7) = [1; 2; 3; 4; 5; 6; 0] /\
+  map (fun i => (i + (7 - 1)) mod 7) [1; 2; 3; 4; 5; 6; 0] = seq 0 7 /\
+  g_dim (G_Shift 7) = 7 /\ g_mat (G_Shift 7) 0 6 = c1 /\ g_mat (G_Shift 7) 0 0 = c0 /\
+  g_nparams (G_PauliZ 4) = 16 /\ g_dim (G_PauliZ 4) = 16 /\ g_dim (G_ACP [3; 4]) = 12.
+Proof. repeat split. Qed.
